@@ -53,6 +53,7 @@ type FnCtx struct {
 	suppress int
 	loopsByFn map[*ssa.Function]map[*ssa.BasicBlock]*loopInfo
 	trivial int
+	faultSkipped int
 	maxPaths int
 	Bounded bool
 	axiomsAdded bool
@@ -99,6 +100,7 @@ type deferred struct {
 }
 
 type Frame struct {
+	site    token.Pos
 	fn      *ssa.Function
 	env     map[ssa.Value]Val
 	names   map[string]Val // source-level variable name -> current value (or *PtrV when isAddr)
@@ -133,6 +135,7 @@ type State struct {
 	rec    *recorder
 	dead   bool
 	knownTags map[string]int
+	storageFault bool
 }
 
 type recorder struct {
@@ -162,6 +165,7 @@ func (st *State) clone() *State {
 		panicking: st.panicking,
 		recovered: st.recovered,
 		rec:    st.rec,
+		storageFault: st.storageFault,
 		knownTags: make(map[string]int, len(st.knownTags)),
 	}
 	for k, v := range st.knownTags {
@@ -177,8 +181,8 @@ func (st *State) clone() *State {
 		n.cells[k] = v
 	}
 	for _, f := range st.frames {
-		nf := &Frame{fn: f.fn, env: make(map[ssa.Value]Val, len(f.env)), names: make(map[string]Val, len(f.names)),
-			nameAddr: f.nameAddr, defers: append([]*callSite(nil), f.defers...), k: f.k,
+		nf := &Frame{site: f.site, fn: f.fn, env: make(map[ssa.Value]Val, len(f.env)), names: make(map[string]Val, len(f.names)),
+			nameAddr: copyBoolMap(f.nameAddr), defers: append([]*callSite(nil), f.defers...), k: f.k,
 			active: make(map[*ssa.BasicBlock]int, len(f.active)), isDeferredCall: f.isDeferredCall, depth: f.depth,
 			discoverStop: f.discoverStop}
 		if f.measure != nil {
@@ -358,4 +362,12 @@ func sortedKeys(m map[string]bool) []string {
 	}
 	sort.Strings(ks)
 	return ks
+}
+
+func copyBoolMap(m map[string]bool) map[string]bool {
+	n := make(map[string]bool, len(m))
+	for k, v := range m {
+		n[k] = v
+	}
+	return n
 }
